@@ -53,7 +53,7 @@ fn gen_noop(rng: &mut Rng, m: &Model, names: &[String], uid: u32) -> Option<Op> 
             }
             8 if !existing.is_empty() => {
                 let q = *rng.pick(&existing);
-                Some(Op::Append { q, pos: Some(m.queues[&names[q]].next + 1 + rng.below(100)), lens: vec![], uid })
+                Some(Op::Append { q, pos: Some(m.queues[&names[q]].next.saturating_add(1 + rng.below(100))), lens: vec![], uid })
             }
             _ => None,
         };
